@@ -924,7 +924,11 @@ func (s *Sim) injectTemplates() {
 				continue
 			}
 			b, v, wrong := nd.Idx, s.Victim, s.VictimEarlyAnswer == 2
-			s.plan(g.Int("earlyAnswerAfter", 0, 10), func() {
+			after := g.Int("earlyAnswerAfter", 0, 10)
+			if s.VectorLast && s.Round == 1 {
+				after = 0 // the held-back vector is broadcast right after this round's opening injections: the answer precedes it
+			}
+			s.plan(after, func() {
 				if di.Honest[v] == nil {
 					return
 				}
